@@ -73,7 +73,7 @@ structure ThreadRec where
   stackRva : Nat
   ctxSize : Nat
   ctxRva : Nat
-  deriving Repr, DecidableEq
+  deriving Repr, DecidableEq, Inhabited
 
 def decodeThreadList (i : Img) (d : DirEnt) : Option (List ThreadRec) := do
   let n ← i.u32 d.rva
